@@ -68,7 +68,7 @@ func key(i int) ledger.LedgerKey {
 
 type ov struct {
 	put  bool
-	tomb bool
+	tomb bool // with put: a pending delete lies under the pending put (re-creation)
 	val  uint64
 }
 
@@ -76,20 +76,22 @@ type model struct {
 	vers  []map[int]uint64 // vers[v] = content committed as version v (vers[0] empty)
 	cons  map[int]ov
 	mem   map[int]ov
+	consOps map[int]int // number of pending consensus set/del operations per key since the last commit
+	memOps  map[int]int
 	memUnknown map[int]bool // keys whose mempool view is not fixed by the statement until the next commit
 }
 
 func newModel() *model {
-	return &model{vers: []map[int]uint64{{}}, cons: map[int]ov{}, mem: map[int]ov{}, memUnknown: map[int]bool{}}
+	return &model{vers: []map[int]uint64{{}}, cons: map[int]ov{}, mem: map[int]ov{}, memUnknown: map[int]bool{}, consOps: map[int]int{}, memOps: map[int]int{}}
 }
 func (m *model) latest() map[int]uint64 { return m.vers[len(m.vers)-1] }
 func (m *model) view(o map[int]ov, k int) (uint64, bool) {
 	if e, ok := o[k]; ok {
-		if e.tomb {
-			return 0, false
-		}
 		if e.put {
 			return e.val, true
+		}
+		if e.tomb {
+			return 0, false
 		}
 	}
 	v, ok := m.latest()[k]
@@ -179,10 +181,12 @@ func (r *runner) apply(op Op) (err error) {
 		if r.twin != nil {
 			_ = r.twin.SetFinality(&item{K: K, V: op.Val})
 		}
-		if e := m.cons[k]; e.tomb {
+		under := m.cons[k].tomb
+		if under {
 			r.probes.Hit("recreate-after-delete")
 		}
-		m.cons[k] = ov{put: true, val: op.Val}
+		m.cons[k] = ov{put: true, val: op.Val, tomb: under}
+		m.consOps[k]++
 	case "getf":
 		want, ok := m.view(m.cons, k)
 		got, xerr := r.L.GetFinality(K)
@@ -194,24 +198,34 @@ func (r *runner) apply(op Op) (err error) {
 			_, _ = r.twin.DelFinality(K)
 		}
 		r.expectGet("DelFinality", k, got, xerr, want, ok)
+		// deliberate leniency: the code propagates a consensus delete into the mempool view of that
+		// key (also when the key is not found); the statement does not fix the mempool view of a key
+		// the consensus side is deleting, so it is not compared until the next commit or mempool write
+		m.memUnknown[k] = true
 		if ok {
+			m.consOps[k]++
 			m.cons[k] = ov{tomb: true}
-			m.memUnknown[k] = true
 			r.probes.Hit("delete")
 		}
 	case "cancelsetf":
 		// generated only directly after a pending put without pending tombstone
-		if e, ok := m.cons[k]; ok && e.put {
+		if e, ok := m.cons[k]; ok && e.put && m.consOps[k] == 1 {
 			_ = r.L.CancelSetFinality(K)
+			m.consOps[k] = 0
 			if r.twin != nil {
 				_ = r.twin.CancelSetFinality(K)
 			}
-			delete(m.cons, k)
+			if e.tomb {
+				m.cons[k] = ov{tomb: true} // the pending delete under the cancelled put remains
+			} else {
+				delete(m.cons, k)
+			}
 			r.probes.Hit("cancel-set")
 		}
 	case "canceldelf":
-		if e, ok := m.cons[k]; ok && e.tomb {
+		if e, ok := m.cons[k]; ok && e.tomb && !e.put && m.consOps[k] == 1 {
 			_ = r.L.CancelDelFinality(K)
+			m.consOps[k] = 0
 			if r.twin != nil {
 				_ = r.twin.CancelDelFinality(K)
 			}
@@ -220,7 +234,8 @@ func (r *runner) apply(op Op) (err error) {
 		}
 	case "set":
 		_ = r.L.Set(&item{K: K, V: op.Val})
-		m.mem[k] = ov{put: true, val: op.Val}
+		m.mem[k] = ov{put: true, val: op.Val, tomb: m.mem[k].tomb}
+		m.memOps[k]++
 		delete(m.memUnknown, k)
 	case "get":
 		if m.memUnknown[k] {
@@ -240,15 +255,22 @@ func (r *runner) apply(op Op) (err error) {
 		r.expectGet("Del", k, got, xerr, want, ok)
 		if ok {
 			m.mem[k] = ov{tomb: true}
+			m.memOps[k]++
 		}
 	case "cancelset":
-		if e, ok := m.mem[k]; ok && e.put && !m.memUnknown[k] {
+		if e, ok := m.mem[k]; ok && e.put && !m.memUnknown[k] && m.memOps[k] == 1 {
 			_ = r.L.CancelSet(K)
-			delete(m.mem, k)
+			m.memOps[k] = 0
+			if e.tomb {
+				m.mem[k] = ov{tomb: true}
+			} else {
+				delete(m.mem, k)
+			}
 		}
 	case "canceldel":
-		if e, ok := m.mem[k]; ok && e.tomb && !m.memUnknown[k] {
+		if e, ok := m.mem[k]; ok && e.tomb && !e.put && !m.memUnknown[k] && m.memOps[k] == 1 {
 			_ = r.L.CancelDel(K)
+			m.memOps[k] = 0
 			delete(m.mem, k)
 		}
 	case "read":
@@ -272,10 +294,10 @@ func (r *runner) apply(op Op) (err error) {
 			next[kk] = v
 		}
 		for kk, e := range m.cons {
-			if e.tomb {
-				delete(next, kk)
-			} else if e.put {
+			if e.put {
 				next[kk] = e.val
+			} else if e.tomb {
+				delete(next, kk)
 			}
 		}
 		hash, ver, xerr := r.L.Commit()
@@ -296,6 +318,8 @@ func (r *runner) apply(op Op) (err error) {
 		m.cons = map[int]ov{}
 		m.mem = map[int]ov{}
 		m.memUnknown = map[int]bool{}
+		m.consOps = map[int]int{}
+		m.memOps = map[int]int{}
 		r.probes.Hit("commit")
 		r.log = append(r.log, fmt.Sprintf("commit v%d %x", ver, hash))
 	case "hist":
@@ -357,6 +381,8 @@ func (r *runner) apply(op Op) (err error) {
 		m.cons = map[int]ov{}
 		m.mem = map[int]ov{}
 		m.memUnknown = map[int]bool{}
+		m.consOps = map[int]int{}
+		m.memOps = map[int]int{}
 		if r.twin != nil {
 			_ = r.twin.Close()
 			r.twin = nil
